@@ -74,6 +74,7 @@ type dirState struct {
 	rerr     error
 	rerrAt   int64
 	head     []byte // first bytes of the stream (up to 64)
+	withData bool   // deliver EOF / the injected read error in the same Read call as the last data
 }
 
 type endState struct {
@@ -228,6 +229,15 @@ func (c *Conn) Read(b []byte) (int, error) {
 			}
 			d.read += int64(k)
 			n.gen++
+			if d.withData && len(d.segs) == 0 {
+				// io.Reader allows returning the last data together with the error
+				if d.rerr != nil && d.read >= d.rerrAt {
+					return k, d.rerr
+				}
+				if d.eof && (d.cut || len(d.pending) == 0) {
+					return k, io.EOF
+				}
+			}
 			return k, nil
 		}
 		if d.eof && (d.cut || len(d.pending) == 0) {
@@ -497,6 +507,27 @@ func (n *Net) EOF(s Side) {
 	d.pending = nil
 	n.gen++
 	n.rcond.Broadcast()
+}
+
+// CloseWrite marks the end of the stream written by side s without cutting what
+// is still pending: the reader sees io.EOF after everything has been released
+// and read (with TerminalWithData: together with the last data).
+func (n *Net) CloseWrite(s Side) {
+	n.mu.Lock()
+	n.d[s].eof = true
+	n.gen++
+	n.rcond.Broadcast()
+	n.mu.Unlock()
+}
+
+// TerminalWithData makes the reader of direction s get io.EOF / the injected
+// read error in the same Read call that hands out the last data (n > 0 and a
+// non-nil error), as the io.Reader contract allows, instead of in a separate
+// call.  The terminal condition must already be set when the last segment is read.
+func (n *Net) TerminalWithData(s Side, on bool) {
+	n.mu.Lock()
+	n.d[s].withData = on
+	n.mu.Unlock()
 }
 
 // ReadErrAt makes the reader of direction s get err once it has consumed off
